@@ -393,6 +393,15 @@ thread_local! {
     static VALUE_HANDLES: RefCell<ValueHandleRegistry> = const { RefCell::new(ValueHandleRegistry::new()) };
 }
 
+/// Number of parked value handles, for the verification probes.
+#[cfg(all(feature = "serde", feature = "verif_hooks"))]
+pub(crate) fn verif_value_handles_len() -> usize {
+    VALUE_HANDLES.with(|handles| {
+        let handles = handles.borrow();
+        handles.overflow.len() + usize::from(handles.single.is_some())
+    })
+}
+
 /// Function that returns true when serialization for [`Value`] is taking place.
 ///
 /// When a value is converted through the `Serde` wrapper, MiniJinja uses the
